@@ -322,7 +322,7 @@ def write_evidence(res, violations, tool_error=False):
         "states": int(res.states),
         "transitions": int(res.transitions),
         "traces_validated_against_impl": int(res.behaviours),
-        "samples": res.samples[:6] if res.samples else [{"note": "no sample recorded"}],
+        "samples": (res.samples[:4] + [x for x in res.samples[4:] if "recorded_event" in x][:3]) if res.samples else [{"note": "no sample recorded"}],
         "evaluations": int(res.evaluations),
         "distinct_nontrivial": int(res.nontrivial),
         "rule": res.rule,
@@ -529,6 +529,11 @@ def record_and_validate(res, mode, cfgs, draws, module="Trace_Lanes", chunks=4, 
                 raise ToolError(f"vacuity guard: no '{k}' events recorded by rec {mode} in {cfg}")
         lines = open(tr).read().splitlines()
         res.extra.setdefault("recorded_events", {})[f"{mode}:{cfg}"] = len(lines)
+        if lines and len(res.samples) < 8 and cfg == cfgs[0]:
+            try:
+                res.samples.append({"recorded_event": json.loads(lines[len(lines) // 2]), "judged_by": module})
+            except ValueError:
+                pass
         res.evaluations += len(lines)
         per = (len(lines) + chunks - 1) // chunks
         for k in range(chunks):
